@@ -106,6 +106,14 @@ class ExistsV:
         self.body = body
 
 
+class OptV:
+    """value of an optional scalar field: `isnone` (z3 Bool) and the value when present; forks only when it is used as a number"""
+
+    def __init__(self, isnone, val):
+        self.isnone = isnone
+        self.val = val
+
+
 class QFact:
     """a universally quantified assumption, kept as a term over placeholder index variables and instantiated on the
     registered index terms (quantifier-free reasoning).  ranges[i] is the exclusive upper bound of vars[i] (lower bound 0)."""
@@ -500,6 +508,9 @@ class Interp:
 
     # ------------------------------------------------------------------------------------------ truthiness
     def truth(self, v):
+        if isinstance(v, OptV):
+            t = self.truth(v.val)
+            return conj(neg(v.isnone), t if not isinstance(t, bool) else t)
         if v is None:
             return False
         if isinstance(v, tuple) and v and isinstance(v[0], str) and v[0] == "and" and len(v) == 3 and isinstance(v[2], (ForallV, ExistsV)):
@@ -742,6 +753,7 @@ class Interp:
         return table[type(op)](a, b)
 
     def binop(self, op, a, b, node=None):
+        a, b = self.force_opt(a), self.force_opt(b)
         if isinstance(a, ForallV) or isinstance(b, ForallV):
             raise Unsupported("arithmetic on quantified value")
         if is_arr2(a) or is_arr2(b):
@@ -882,6 +894,17 @@ class Interp:
         raise Unsupported("unary %s" % type(op).__name__)
 
     def compare(self, op, a, b, node=None):
+        if isinstance(op, (ast.Eq, ast.NotEq)) and (isinstance(a, OptV) or isinstance(b, OptV)) and not (isinstance(a, OptV) and isinstance(b, OptV)):
+            # x == y with x optional: False when x is None (y is never None here), else the comparison of the contents
+            o, other = (a, b) if isinstance(a, OptV) else (b, a)
+            if other is None:
+                r = o.isnone
+            else:
+                inner = self.compare(ast.Eq(), o.val, other, node)
+                r = conj(neg(o.isnone), core.to_bool(inner) if not isinstance(inner, bool) else inner)
+            return r if isinstance(op, ast.Eq) else (neg(r) if not isinstance(r, bool) else not r)
+        if not isinstance(op, (ast.Is, ast.IsNot)):
+            a, b = self.force_opt(a), self.force_opt(b)
         if isinstance(op, (ast.Is, ast.IsNot)):
             r = self._identical(a, b)
             return r if isinstance(op, ast.Is) else (neg(r) if not isinstance(r, bool) else not r)
@@ -949,7 +972,20 @@ class Interp:
         table = {ast.Eq: operator.eq, ast.NotEq: operator.ne, ast.Lt: operator.lt, ast.LtE: operator.le, ast.Gt: operator.gt, ast.GtE: operator.ge}
         return table[type(op)](a, b)
 
+    def force_opt(self, v):
+        """an optional value used where its content matters: decide presence on this path"""
+        if isinstance(v, OptV):
+            if self.branch(v.isnone):
+                return None
+            return v.val
+        return v
+
     def _identical(self, a, b):
+        if isinstance(a, OptV) and b is None:
+            return a.isnone
+        if isinstance(b, OptV) and a is None:
+            return b.isnone
+        a, b = self.force_opt(a), self.force_opt(b)
         if a is None and b is None:
             return True
         if isinstance(a, ObjV) and b is None:
@@ -1177,9 +1213,7 @@ class Interp:
             return HeapArr1(o, attr)
         if kind in ("real?", "int?", "str?"):
             isnone = h.read_scal(attr + "?none", "bool", o.ref)
-            if self.branch(isnone):
-                return None
-            return h.read_scal(attr, kind[:-1], o.ref)
+            return OptV(isnone, h.read_scal(attr, kind[:-1], o.ref))
         if kind == "opaque":
             return Opaque("%s.%s" % (o.ref, attr))
         raise Unsupported("field kind %s" % kind)
@@ -1294,6 +1328,34 @@ class Interp:
         o.classes  # (ObjV is immutable; refinement is in the path condition)
         return fi
 
+    def call_merged(self, o, name, impls, args, kwargs, node=None):
+        """call a side-effect-free method on an object of several possible classes: every feasible implementation is
+        evaluated under its typeof condition and the results are merged (no path fork)"""
+        groups = {}
+        for c, fi in impls.items():
+            groups.setdefault(fi, []).append(c)
+        fis = sorted(groups, key=lambda f: f.qualname if f else "")
+        if len(fis) > 1:
+            fis = [f for f in fis if self.feasible(CLASSES.classset_term(o.ref, groups[f]))]
+            if not fis:
+                raise Infeasible()
+        if len(fis) == 1:
+            return self.call_function(fis[0], [ObjV(o.ref, groups[fis[0]])] + list(args), kwargs, node)
+        vals = []
+        for fi in fis:
+            cond = CLASSES.classset_term(o.ref, groups[fi])
+            n_pc = len(self.pc)
+            self.pc.append(cond)
+            touched = set(self.heap.touched)
+            try:
+                v = self.call_function(fi, [ObjV(o.ref, groups[fi])] + list(args), kwargs, node)
+            finally:
+                del self.pc[n_pc:]
+            if self.heap.touched != touched:
+                raise Unsupported("method %s writes to the heap: it cannot be evaluated by merging" % fi.qualname)
+            vals.append((cond, v))
+        return self.merge_values(vals, "call %s" % name)
+
     def module_attr(self, m, attr):
         from . import lib
 
@@ -1301,12 +1363,13 @@ class Interp:
 
     # ------------------------------------------------------------------------------------------ subscripts
     def subscript_load(self, v, idx, node=None):
+        if isinstance(v, Opaque):
+            return Opaque(v.what + "[]")
         if isinstance(v, ObjV):
             impls = self._resolve(v, "__getitem__")
             if impls is None:
                 raise Unsupported("object %r is not subscriptable" % v)
-            fi = self._dispatch(v, "__getitem__", impls)
-            return self.call_function(fi, [v, idx], {}, node)
+            return self.call_merged(v, "__getitem__", impls, [idx], {}, node)
         if isinstance(v, dict):
             if is_concrete(idx):
                 if idx not in v:
